@@ -747,6 +747,12 @@ func SpecMatch(pattern string, hasWild bool, s string) bool {
 // undecodable answer changes nothing; system.notFound becomes a delete event for that query's
 // resource only; answered events, or a full model/collection of the matching kind, are applied to
 // that query's resource only - and none of it can crash the worker, whatever the service sends.
+// The answer to a query request - a reply or a failure alike - gives back one of the locks taken
+// for the query event, once: processing of the resource's events always resumes.
+//@ closure (*EventSubscription).handleQueryEvent#2
+//@   requires e != nil && e.cache != nil && rs != nil && rs.e == e
+//@   ensures[C13,C15] callcount("enqueueUnlock") == old(callcount("enqueueUnlock")) + 1
+//@   safety[C15]
 //@ closure (*EventSubscription).handleQueryEvent#3
 //@   requires e != nil && e.cache != nil && rs != nil && rs.e == e
 //@   assumes (rs.state > stateRequested ==> predLoadedOK(rs)) && (forall sb Subscriber :: has(rs.subs, sb) ==> sb != nil)
